@@ -114,6 +114,13 @@ def run(ctx):
             ok = all({o.call.name.split("::")[-1] for a in c.args[1:3] for o in origins(rc, a, taint=True) if o.kind == "call"} >= {"read_string"} for c in sps)
             r3.check(ok, "from-message", "key and value are read from the ParameterStatus message", "set_param arguments do not come from the message")
             # client map update is on the Some edge of the optional argument, startup=false
+            # the server connection's own record is updated on every ParameterStatus (sync_parameters diffs against it)
+            heads_ = loop_headers(rc)
+            lh_ = [hd for hd in heads_ if tgt in natural_loop(rc, hd)]
+            rets_ = [bb for bb, blk in enumerate(rc.blocks) if blk["term"]["k"] == "return"]
+            wit_ = rc.uncrossed_path([tgt], lh_ + rets_, blocks=[c.block for c in recvs_self])
+            r3.check(bool(recvs_self) and wit_ is None, "server-record-always-updated", "every ParameterStatus updates the server connection's own parameter record",
+                     "a ParameterStatus can be applied to the client's map only: the server connection's record goes stale, sync_parameters then sees no difference for the next client and its statements run with another client's value", "", wit_ and rc.describe_path(wit_))
             r3.check(all(const_int(c.args[3]) == 0 for c in sps), "not-startup", "ParameterStatus updates use startup=false (tracked parameters only)", "ParameterStatus updates are applied with startup=true")
     # who passes Some / None
     for fn, want in (("pgcat::client::Client::receive_server_message::{closure#0}", "Some"), ("pgcat::server::Server::query::{closure#0}", "None"),
